@@ -56,7 +56,8 @@ def main():
         os.makedirs(os.path.join(wv, "evidence"), exist_ok=True)
         sh(["git", "-C", "/repo", "worktree", "add", "--detach", wr, "HEAD"])
         gm = os.path.join(wv, "harness", "go.mod")
-        open(gm, "w").write(open(gm).read().replace("=> /repo", "=> " + wr))
+        txt = open(gm).read().replace("=> /repo", "=> " + wr)
+        open(gm, "w").write(txt)
         env = dict(ENV, VERIF_REPO=wr, VERIF_SEED=seed, VERIF_NOSHRINK="1")
         try:
             while True:
@@ -77,6 +78,8 @@ def main():
                     res["status"] = "caught" if viol else "missed"
                     res["violation_line"] = viol[0] if viol else ""
                     res["last_line"] = (p.stdout.strip().splitlines() or [""])[-1]
+                    if os.environ.get("PAR_DEBUG"):
+                        print(p.stdout[-3000:], p.stderr[-2000:])
                     if viol:
                         rp = viol[0].split("replay=")[1].split()[0]
                         try:
